@@ -9,8 +9,9 @@ PROPERTY = 'C07'
 LEVEL = 'exploration'
 RULE = ('every program "owner: [delay]; until(N){body}; tail" next to a helper that sets/resets flags and tracked values at times '
         '{0,1,2} and a task finishing at 1 or 2, for N in {delay, time==/>= past/now/future, flag (set later, already set, set and '
-        'reset), ~flag, tracked comparison, task.done, a|b, a&b}, bodies {delays, eternity, children, empty, nested until with equal/'
-        'earlier/later deadline or on the very same flag}, all relative orders of trigger and completion; plus run(till=T) over '
+        'reset), ~flag, tracked comparison (with a constant; of two values, changed on either side), task.done, a|b, a&b}, bodies {delays, eternity, children, empty, nested until with equal/'
+        'earlier/later deadline or on the very same flag, a child cancelled in the time step of the trigger, a volatile child next to a '
+        'not yet started regular child}, all relative orders of trigger and completion; plus run(till=T) over '
         'time-only programs. Oracle: clock model with leave = min(trigger, completion); the trigger of value-based notifications is '
         'read from the observed order of the helper records; non-trivial = the notification ended the block or tied with completion')
 ASSUMPTIONS = [
@@ -39,11 +40,22 @@ HELPERS = {
     'X@1': [['EQ', 1], ['TADD', 'X', 1]],
     'X@2': [['EQ', 2], ['TADD', 'X', 1]],
     'X@1-@1': [['EQ', 1], ['TADD', 'X', 1], ['TADD', 'X', -1]],
+    'Y@1': [['EQ', 1], ['TADD', 'Y', -1]],
+    'Y@2': [['EQ', 2], ['TADD', 'Y', -1]],
+    'Y@1-@1': [['EQ', 1], ['TADD', 'Y', -1], ['TADD', 'Y', 1]],
+    # cancelling a child of the block in the time step in which the notification fires
+    'Kc@1': [['EQ', 1], ['CANCEL', 'c', 'x']],
+    'Kc@2': [['EQ', 2], ['CANCEL', 'c', 'x']],
+    'A@1Kc': [['EQ', 1], ['SET', 'A', True], ['CANCEL', 'c', 'x']],
+    'KcA@1': [['EQ', 1], ['CANCEL', 'c', 'x'], ['SET', 'A', True]],
 }
+TRACKED_INIT = {'X': 0, 'Y': 1}
 NOTIFS = {
     'flag': (['F', 'A'], ['none', 'A@0', 'A@1', 'A@2', 'A@1-@1', 'A@0-@2', 'A@0-@1']),
     'nflag': (['NF', 'A'], ['none', 'A@0', 'A@0-@1', 'A@0-@2', 'A@1-@1']),
     'tracked': (['T', 'X', '>=', 1], ['none', 'X@1', 'X@2', 'X@1-@1']),
+    # (a comparison of two tracked values fires when either side changes)
+    'tracked2': (['TT', 'X', '>=', 'Y'], ['none', 'X@1', 'X@2', 'Y@1', 'Y@2', 'Y@1-@1']),
     'done1': (['DONE', 't1'], ['none']),
     'done2': (['DONE', 't2'], ['none']),
     'or': (['OR', ['F', 'A'], ['F', 'B']], ['none', 'A@0', 'A@1', 'AB@1', 'A@1B@2']),
@@ -63,14 +75,22 @@ LOOSE_BODIES = [
     [['DO', 'c', [['INTERVAL', 1, 5, [[], [], [], [], []]]]], ['D', 4]],
     [['DO', 'c', [['DELAYLOOP', 2, 3, [[], [], []]]], {'volatile': True}], ['D', 3]],
     [['DO', 'c', [['INTERVAL', 2, 3, [[['D', 1]], [], []]]], {'after': 1}], ['ETERNITY']],
+    # a volatile child next to a regular child that has not had its first turn when the notification ends the block
+    [['DO', 'v', [['DELAYLOOP', 1, 6, [[], [], [], [], [], []]]], {'volatile': True}], ['D', 1],
+     ['DO', 'c', [['D', 2], ['PROBE', 'now']]], ['D', 2]],
+    [['DO', 'v', [['DELAYLOOP', 1, 6, [[], [], [], [], [], []]]], {'volatile': True}], ['DO', 'c', [['D', 2], ['PROBE', 'now']]], ['D', 2]],
 ]
+CANCEL_BODIES = [[['DO', 'c', [['ETERNITY']]], ['D', 3]], [['DO', 'c', [['D', 4], ['PROBE', 'now']]], ['ETERNITY']],
+                 [['DO', 'c', [['D', 1], ['D', 1], ['PROBE', 'now']]], ['D', 3]]]
 TAILS = [[['D', 1]], [['D', 3]]]
 
 
-def program(pre, notif, body, tail, helper, start=0):
+def program(pre, notif, body, tail, helper, start=0, helper2=None):
     owner = ([['D', pre]] if pre else []) + [['UNTIL', 'u', notif, body]] + [['PROBE', 'now']] + tail
     kids = [['DO', 't1', [['D', 1]]], ['DO', 't2', [['D', 2]]], ['DO', 'h', HELPERS[helper]], ['DO', 'owner', owner]]
-    return {'start': start, 'objs': {'A': 'Flag', 'B': 'Flag', 'X': ['Tracked', 0]}, '_nops': 40,
+    if helper2:
+        kids.append(['DO', 'h2', HELPERS[helper2]])      # a helper that takes its turns after the owner
+    return {'start': start, 'objs': {'A': 'Flag', 'B': 'Flag', 'X': ['Tracked', 0], 'Y': ['Tracked', 1]}, '_nops': 40,
             'roots': [['root', [['SCOPE', 'm', kids]]]]}
 
 
@@ -94,6 +114,14 @@ def cases(tier):
             for body in LOOSE_BODIES:
                 for h in (('A@1', 'A@2') if n[0] == 'F' else ('none',)):
                     p = program(pre, n, body, [['D', 5]], h)
+                    p['_loose'] = True
+                    out.append(p)
+    # a child of the block is cancelled in the very time step in which the notification ends the block
+    for n in TIMED[:2] + [['EQ', 1], ['EQ', 2], ['GE', 1], ['GE', 2], ['F', 'A']]:
+        for body in CANCEL_BODIES:
+            for h in (('A@1Kc', 'KcA@1') if n[0] == 'F' else ('Kc@1', 'Kc@2')):
+                for second in (False, True):
+                    p = program(0, n, body, [['D', 5]], 'none' if second else h, helper2=h if second else None)
                     p['_loose'] = True
                     out.append(p)
     # dates without exact binary representation, entered at such times (a date must not move by a float round trip)
@@ -151,14 +179,14 @@ def state_resolver(ctx, program):
                     if op and op[1] == e[1]:
                         v = op[2]
             return v if k == 'F' else not v
-        if k == 'T':
-            v = 0
+        if k in ('T', 'TT'):
+            v = dict(TRACKED_INIT)
             for r in log[:idx]:
                 if r[0] == 'start' and r[4] == 'TADD':
                     op = find_op(program, r[1], r[2])
-                    if op and op[1] == e[1]:
-                        v += op[2]
-            return v >= e[3]
+                    if op:
+                        v[op[1]] += op[2]
+            return v[e[1]] >= (e[3] if k == 'T' else v[e[3]])
         if k == 'DONE':
             return any(r[0] in ('finish', 'abort') and r[1] == e[1] for r in log[:idx])
         if k == 'GE':
